@@ -166,11 +166,13 @@ class HedGroup:
         string_copy._sorted(update_self=True)
         return string_copy
 
-    def _sorted(self, update_self=False):
+    def _sorted(self, update_self=False, canonical=False):
         """ Return a sorted copy of this HED group as a list of it's children.
 
         Parameters:
             update_self (bool): If True, update the contents of this group to be sorted as well.
+            canonical (bool): If True, order by the case-insensitive, recursively sorted form, so that items that
+                              compare equal are always neighbours (what duplicate detection needs).
 
         Returns:
             list: The list of all tags in this group, with subgroups being returned as further nested lists.
@@ -182,17 +184,21 @@ class HedGroup:
             if isinstance(child, HedTag):
                 tag_list.append((child, child))
             else:
-                group_list.append((child, child._sorted(update_self)))
+                group_list.append((child, child._sorted(update_self, canonical)))
 
-        # Order by what duplicate detection compares: the case-insensitive, recursively sorted form.
+        # Canonical order = what duplicate detection compares: the case-insensitive, recursively sorted form.
         # (The text of the child itself is only a tie-break, so equal items are always neighbours.)
         def _canonical(item):
             if isinstance(item, list):
                 return "(" + ",".join(_canonical(sub_item) for sub_item in item) + ")"
             return str(item).casefold()
 
-        tag_list.sort(key=lambda x: (_canonical(x[1]), str(x[0])))
-        group_list.sort(key=lambda x: (_canonical(x[1]), str(x[0])))
+        if canonical:
+            tag_list.sort(key=lambda x: (_canonical(x[1]), str(x[0])))
+            group_list.sort(key=lambda x: (_canonical(x[1]), str(x[0])))
+        else:
+            tag_list.sort(key=lambda x: str(x[0]))
+            group_list.sort(key=lambda x: str(x[0]))
         output_list = tag_list + group_list
         if update_self:
             self.children = [x[0] for x in output_list]
